@@ -350,15 +350,18 @@ void ezc3d::c3d::point(const std::vector<ezc3d::DataNS::Frame>& frames)
         throw std::invalid_argument("Points in the frames cannot be empty");
 
     std::vector<std::string> labels(parameters().group("POINT").parameter("LABELS").valuesAsString());
+    // Validate all the new points before adding any, so that a refused call leaves the data set unchanged
     for (size_t idx = 0; idx < frames[0].points().nbPoints(); ++idx){
         const std::string &name(frames[0].points().point(idx).name());
         for (size_t i=0; i<labels.size(); ++i)
             if (!name.compare(labels[i]))
                 throw std::invalid_argument("The point you try to create already exists in the data set");
-
+        for (size_t f=0; f<data().nbFrames(); ++f)
+            frames[f].points().point(idx); // throws if a frame has less points than the first one
+    }
+    for (size_t idx = 0; idx < frames[0].points().nbPoints(); ++idx)
         for (size_t f=0; f<data().nbFrames(); ++f)
             _data->frame_nonConst(f).points_nonConst().point(frames[f].points().point(idx));
-    }
     updateParameters();
 }
 
@@ -394,18 +397,22 @@ void ezc3d::c3d::analog(const std::vector<ezc3d::DataNS::Frame> &frames)
         throw std::invalid_argument("Channels in the frame cannot be empty");
 
     std::vector<std::string> labels(parameters().group("ANALOG").parameter("LABELS").valuesAsString());
+    // Validate all the new channels before adding any, so that a refused call leaves the data set unchanged
     for (size_t idx = 0; idx < frames[0].analogs().subframe(0).nbChannels(); ++idx){
         const std::string &name(frames[0].analogs().subframe(0).channel(idx).name());
         for (size_t i=0; i<labels.size(); ++i)
             if (!name.compare(labels[i]))
                 throw std::invalid_argument("The channel you try to create already exists in the data set");
-
-        for (size_t f=0; f < data().nbFrames(); ++f){
+        for (size_t f=0; f < data().nbFrames(); ++f)
             for (size_t sf=0; sf < header().nbAnalogByFrame(); ++sf){
-                _data->frame_nonConst(f).analogs_nonConst().subframe_nonConst(sf).channel(frames[f].analogs().subframe(sf).channel(idx));
+                frames[f].analogs().subframe(sf).channel(idx); // throws if a subframe has less channels than the first one
+                data().frame(f).analogs().subframe(sf); // throws if a stored frame has less subframes than the header
             }
-        }
     }
+    for (size_t idx = 0; idx < frames[0].analogs().subframe(0).nbChannels(); ++idx)
+        for (size_t f=0; f < data().nbFrames(); ++f)
+            for (size_t sf=0; sf < header().nbAnalogByFrame(); ++sf)
+                _data->frame_nonConst(f).analogs_nonConst().subframe_nonConst(sf).channel(frames[f].analogs().subframe(sf).channel(idx));
     updateParameters();
 }
 
